@@ -182,8 +182,41 @@ func init() {
 						if !ok {
 							continue
 						}
-						if ad := fi.isCall(es.X, fnECAdd); ad != nil && fi.varOf(recvOf(ad)) == a.ec && len(ad.Args) == 1 && fi.isCall(fi.deref(ad.Args[0]), "fmt.Errorf", "errors.New") != nil {
-							hasAdd = true
+						if ad := fi.isCall(es.X, fnECAdd); ad != nil && fi.varOf(recvOf(ad)) == a.ec && len(ad.Args) == 1 {
+							// every possible value of the argument is a freshly constructed error
+							srcs := fi.valueSources(ad.Args[0])
+							fresh := len(srcs) > 0
+							for _, sx := range srcs {
+								if sx.fi.isCall(sx.expr, "fmt.Errorf", "errors.New") == nil {
+									fresh = false
+								}
+							}
+							// a variable declared without value must be assigned on both arms of an if/else before the add
+							if v := fi.varOf(ad.Args[0]); v != nil && fresh {
+								for _, d := range fi.defs[v] {
+									if d.kind == "zero" {
+										arms := 0
+										var gate *ast.IfStmt
+										for _, d2 := range fi.defs[v] {
+											if d2.kind != "assign" {
+												continue
+											}
+											blk, _ := fi.parent[d2.node].(*ast.BlockStmt)
+											is, _ := fi.parent[blk].(*ast.IfStmt)
+											if is != nil && (gate == nil || gate == is) && is.Else != nil {
+												gate = is
+												arms++
+											}
+										}
+										if gate == nil || arms != 2 || gate.End() > es.Pos() {
+											fresh = false
+										}
+									}
+								}
+							}
+							if fresh {
+								hasAdd = true
+							}
 						}
 						if st := fi.isCall(es.X, fnMapSet); st != nil && fi.varOf(recvOf(st)) == a.index && a.isCurrT(st.Args[0]) && fi.varOf(st.Args[1]) == a.errAbort {
 							hasMark = true
